@@ -75,6 +75,7 @@ package packets
 //@ modifies ghost(r.$pos)
 //@ ensures [C06] result1 == nil ==> 0 <= result0 && result0 <= 268435455
 //@ ensures [C06] result1 == nil ==> r.$pos - p0 <= 4 && r.$pos >= p0
+//@ ensures [C06] 0 <= r.$pos && r.$pos <= r.$len
 //@ ensures [C06] result1 == nil && r.$pos - p0 >= 1 ==> uint32(result0) == partial(r, p0, r.$pos - p0) || (r.$pos == r.$len && uint32(result0) == partial(r, p0, r.$pos - p0 + 1))
 //@ ensures [C06] result1 == nil ==> (forall i int :: p0 <= i && i < r.$pos - 1 ==> (d(r, i) & 128) != 0)
 //@ loop 1 invariant p0 <= r.$pos && r.$pos - p0 <= 3 && r.$pos <= r.$len
@@ -196,10 +197,102 @@ package packets
 //@ ensures [C06] err == nil ==> (forall k int :: 0 <= k && k < len(b) ==> b[k] == r.$data[old(r.$r) + 2 + k])
 //@ ensures [C06] err != nil ==> b == nil
 
-// Properties.Unpack consumes the property block from the buffer and fills the receiver (trusted here).
-//@ func (*Properties).Unpack trusted
-//@ modifies p.*, ghost(bufr.$r)
-//@ ensures bufOK(bufr) && bufr.$r >= old(bufr.$r)
+// The property block (MQTT 2.2.2): a length, then (identifier, value) pairs; each identifier has one data type
+// (table 2-4) and, except the user property, may appear once. The readers of the five scalar data types:
+//@ func propertyReadBool mode bv
+//@ props C06
+//@ requires [C06] bufOK(r)
+//@ modifies ghost(r.$r)
+//@ ensures [C06] bufOK(r) && r.$r >= old(r.$r) && r.$r <= old(r.$r) + 1
+//@ ensures [C06] result1 == nil ==> i == nil && result0 != nil && (*result0 == 0 || *result0 == 1) && *result0 == r.$data[old(r.$r)] && r.$r == old(r.$r) + 1
+//@ ensures [C06] i != nil ==> result1 != nil
+//@ func readUint32 mode bv
+//@ props C06
+//@ requires [C06] bufOK(r)
+//@ modifies ghost(r.$r)
+//@ ensures [C06] bufOK(r)
+//@ ensures [C06] old(r.$w - r.$r) < 4 ==> result1 != nil && r.$r == old(r.$r)
+//@ ensures [C06] old(r.$w - r.$r) >= 4 ==> result1 == nil && r.$r == old(r.$r) + 4 && result0 == (uint32(r.$data[old(r.$r)]) << 24 | uint32(r.$data[old(r.$r) + 1]) << 16 | uint32(r.$data[old(r.$r) + 2]) << 8 | uint32(r.$data[old(r.$r) + 3]))
+//@ func (encoding/binary.bigEndian).Uint32 mode bv
+//@ params self, b
+//@ requires len(b) >= 4
+//@ ensures result == (uint32(b[0]) << 24 | uint32(b[1]) << 16 | uint32(b[2]) << 8 | uint32(b[3]))
+//@ func errMorethanOnce trusted pure
+//@ ensures result != nil
+// (the optional validity callback of a reader is one of three literals in Properties.Unpack; it only inspects its argument)
+//@ func propertyReadUint32 mode bv
+//@ props C06
+//@ abstract call param.validate pure
+//@ requires [C06] bufOK(r)
+//@ modifies ghost(r.$r)
+//@ ensures [C06] bufOK(r) && r.$r >= old(r.$r) && r.$r <= old(r.$r) + 4
+//@ ensures [C06] result1 == nil ==> i == nil && result0 != nil && r.$r == old(r.$r) + 4 && *result0 == (uint32(r.$data[old(r.$r)]) << 24 | uint32(r.$data[old(r.$r) + 1]) << 16 | uint32(r.$data[old(r.$r) + 2]) << 8 | uint32(r.$data[old(r.$r) + 3]))
+//@ ensures [C06] i != nil ==> result1 != nil
+//@ func propertyReadUint16 mode bv
+//@ props C06
+//@ abstract call param.validate pure
+//@ requires [C06] bufOK(r)
+//@ modifies ghost(r.$r)
+//@ ensures [C06] bufOK(r) && r.$r >= old(r.$r) && r.$r <= old(r.$r) + 2
+//@ ensures [C06] result1 == nil ==> i == nil && result0 != nil && r.$r == old(r.$r) + 2 && *result0 == (uint16(r.$data[old(r.$r)]) << 8 | uint16(r.$data[old(r.$r) + 1]))
+//@ ensures [C06] i != nil ==> result1 != nil
+//@ func propertyReadUTF8String mode bv
+//@ props C06
+//@ abstract call param.validate pure
+//@ requires [C06] bufOK(r)
+//@ modifies ghost(r.$r)
+//@ ensures [C06] bufOK(r) && r.$r >= old(r.$r)
+//@ ensures [C06] err == nil ==> i == nil && len(b) == int(uint16(r.$data[old(r.$r)]) << 8 | uint16(r.$data[old(r.$r) + 1])) && r.$r == old(r.$r) + 2 + len(b) && (forall k int :: 0 <= k && k < len(b) ==> b[k] == r.$data[old(r.$r) + 2 + k])
+//@ ensures [C06] i != nil ==> err != nil
+//@ func propertyReadBinary mode bv
+//@ props C06
+//@ abstract call param.validate pure
+//@ requires [C06] bufOK(r)
+//@ modifies ghost(r.$r)
+//@ ensures [C06] bufOK(r) && r.$r >= old(r.$r)
+//@ ensures [C06] err == nil ==> i == nil && len(b) == int(uint16(r.$data[old(r.$r)]) << 8 | uint16(r.$data[old(r.$r) + 1])) && r.$r == old(r.$r) + 2 + len(b) && (forall k int :: 0 <= k && k < len(b) ==> b[k] == r.$data[old(r.$r) + 2 + k])
+//@ ensures [C06] i != nil ==> err != nil
+// which identifiers a packet type may carry is a table lookup (ValidProperties)
+//@ func ValidateID trusted pure
+
+// Properties.Unpack: never reads past the announced length of the block (it decodes a copy of exactly that many
+// bytes), never panics, and reads each identifier with the decoder of its data type into the field of that property.
+// MQTT 5 table 2-4, data type of each property identifier: 1 byte, 2 two byte integer, 3 four byte integer, 4 UTF-8 string, 5 binary data
+//@ spec func propKind(id byte) int = (id == 1 ? 1 : (id == 2 ? 3 : (id == 3 ? 4 : (id == 8 ? 4 : (id == 9 ? 5 : (id == 17 ? 3 : (id == 18 ? 4 : (id == 19 ? 2 : (id == 21 ? 4 : (id == 22 ? 5 : (id == 23 ? 1 : (id == 24 ? 3 : (id == 25 ? 1 : (id == 26 ? 4 : (id == 28 ? 4 : (id == 31 ? 4 : (id == 33 ? 2 : (id == 34 ? 2 : (id == 35 ? 2 : (id == 36 ? 1 : (id == 37 ? 1 : (id == 39 ? 3 : (id == 40 ? 1 : (id == 41 ? 1 : (id == 42 ? 1 : 0)))))))))))))))))))))))))
+// brOK: the same buffer seen as the io.ByteReader that EncodeRemainLength reads from (trusted/io.gvc)
+//@ spec func brOK(b *bytes.Buffer) bool = 0 <= b.$pos && b.$pos <= b.$len && b.$len < 4611686018427387904
+//@ func (*Properties).Unpack mode bv
+//@ props C06
+//@ call propertyReadBool#1 assert [C06] propType == 1 && $arg0 == p.PayloadFormat && propKind(propType) == 1
+//@ call propertyReadUint32#1 assert [C06] propType == 2 && $arg0 == p.MessageExpiry && propKind(propType) == 3
+//@ call propertyReadUTF8String#1 assert [C06] propType == 3 && $arg0 == p.ContentType && propKind(propType) == 4
+//@ call propertyReadUTF8String#2 assert [C06] propType == 8 && $arg0 == p.ResponseTopic && propKind(propType) == 4
+//@ call propertyReadBinary#1 assert [C06] propType == 9 && $arg0 == p.CorrelationData && propKind(propType) == 5
+//@ call propertyReadUint32#2 assert [C06] propType == 17 && $arg0 == p.SessionExpiryInterval && propKind(propType) == 3
+//@ call propertyReadUTF8String#3 assert [C06] propType == 18 && $arg0 == p.AssignedClientID && propKind(propType) == 4
+//@ call propertyReadUint16#1 assert [C06] propType == 19 && $arg0 == p.ServerKeepAlive && propKind(propType) == 2
+//@ call propertyReadUTF8String#4 assert [C06] propType == 21 && $arg0 == p.AuthMethod && propKind(propType) == 4
+//@ call propertyReadBinary#2 assert [C06] propType == 22 && $arg0 == p.AuthData && propKind(propType) == 5
+//@ call propertyReadBool#2 assert [C06] propType == 23 && $arg0 == p.RequestProblemInfo && propKind(propType) == 1
+//@ call propertyReadUint32#3 assert [C06] propType == 24 && $arg0 == p.WillDelayInterval && propKind(propType) == 3
+//@ call propertyReadBool#3 assert [C06] propType == 25 && $arg0 == p.RequestResponseInfo && propKind(propType) == 1
+//@ call propertyReadUTF8String#5 assert [C06] propType == 26 && $arg0 == p.ResponseInfo && propKind(propType) == 4
+//@ call propertyReadUTF8String#6 assert [C06] propType == 28 && $arg0 == p.ServerReference && propKind(propType) == 4
+//@ call propertyReadUTF8String#7 assert [C06] propType == 31 && $arg0 == p.ReasonString && propKind(propType) == 4
+//@ call propertyReadUint16#2 assert [C06] propType == 33 && $arg0 == p.ReceiveMaximum && propKind(propType) == 2
+//@ call propertyReadUint16#3 assert [C06] propType == 34 && $arg0 == p.TopicAliasMaximum && propKind(propType) == 2
+//@ call propertyReadUint16#4 assert [C06] propType == 35 && $arg0 == p.TopicAlias && propKind(propType) == 2
+//@ call propertyReadBool#4 assert [C06] propType == 36 && $arg0 == p.MaximumQoS && propKind(propType) == 1
+//@ call propertyReadBool#5 assert [C06] propType == 37 && $arg0 == p.RetainAvailable && propKind(propType) == 1
+//@ call propertyReadUint32#4 assert [C06] propType == 39 && $arg0 == p.MaximumPacketSize && propKind(propType) == 3
+//@ call propertyReadBool#6 assert [C06] propType == 40 && $arg0 == p.WildcardSubAvailable && propKind(propType) == 1
+//@ call propertyReadBool#7 assert [C06] propType == 41 && $arg0 == p.SubIDAvailable && propKind(propType) == 1
+//@ call propertyReadBool#8 assert [C06] propType == 42 && $arg0 == p.SharedSubAvailable && propKind(propType) == 1
+//@ requires [C06] p != nil && bufOK(bufr) && brOK(bufr)
+//@ modifies p.*, heap, ghost(bufr.$r), ghostall(io.ByteReader.$pos)
+//@ preserves allelems(byte), allelems(string), allelems(Topic), allelems(codes.Code), all(FixHeader.*), all(Publish.*), all(Connect.*), all(Subscribe.*), all(Unsubscribe.*), all(Puback.*), all(Pubrec.*), all(Pubrel.*), all(Pubcomp.*), all(Suback.*), all(Unsuback.*), all(Connack.*), all(Disconnect.*), all(Auth.*)
+//@ ensures [C06] bufOK(bufr) && bufr.$r >= old(bufr.$r) && bufr.$w == old(bufr.$w)
+//@ loop 1 invariant p != nil && p == old(p) && bufOK(newBufr) && brOK(newBufr) && bufOK(bufr) && bufr.$r >= old(bufr.$r) && bufr.$w == old(bufr.$w) && bufr == old(bufr)
 
 //@ func ValidV5Topic trusted pure
 
@@ -211,7 +304,7 @@ package packets
 //@ requires [C06] p != nil && p.FixHeader != nil && p.FixHeader.RemainLength >= 0
 //@ requires [C06] p.FixHeader.RemainLength <= r.$avail
 //@ call ReadFull#1 assert [C06] len(buf) <= r.$avail
-//@ modifies heap
+//@ modifies heap, ghostall(io.ByteReader.$pos)
 //@ preserves all(FixHeader.*), all(Subscribe.Version), all(Subscribe.FixHeader)
 //@ call Buffer.Len#1 assert [C06] (p.Version == 5 ==> subOpts(topic.Qos, topic.NoLocal, topic.RetainAsPublished, topic.RetainHandling) == opts) && (p.Version != 5 ==> topic.Qos == opts && !topic.NoLocal && !topic.RetainAsPublished && topic.RetainHandling == 0) && topic.Qos <= 2 && topic.RetainHandling <= 2 && topic.Name == string(topicFilter)
 //@ call Buffer.Len#1 assert [C06] len(p.Topics) >= 1 && p.Topics[len(p.Topics) - 1].Qos == topic.Qos && p.Topics[len(p.Topics) - 1].NoLocal == topic.NoLocal && p.Topics[len(p.Topics) - 1].RetainAsPublished == topic.RetainAsPublished && p.Topics[len(p.Topics) - 1].RetainHandling == topic.RetainHandling && p.Topics[len(p.Topics) - 1].Name == topic.Name
@@ -234,7 +327,7 @@ package packets
 //@ requires [C06] p != nil && p.FixHeader != nil && p.FixHeader.RemainLength >= 0
 //@ requires [C06] p.FixHeader.RemainLength <= r.$avail
 //@ call ReadFull#1 assert [C06] len(buf) <= r.$avail
-//@ modifies heap
+//@ modifies heap, ghostall(io.ByteReader.$pos)
 //@ preserves all(FixHeader.*), all(Puback.Version), all(Puback.FixHeader)
 //@ ensures [C06] result == nil ==> p.FixHeader.RemainLength >= 2 && p.PacketID == (uint16(bufr.$data[0]) << 8 | uint16(bufr.$data[1])) && bufr.$w == p.FixHeader.RemainLength && bufr.$r <= bufr.$w
 //@ ensures [C06] result == nil && p.FixHeader.RemainLength == 2 ==> p.Code == 0
@@ -246,7 +339,7 @@ package packets
 //@ requires [C06] p != nil && p.FixHeader != nil && p.FixHeader.RemainLength >= 0
 //@ requires [C06] p.FixHeader.RemainLength <= r.$avail
 //@ call ReadFull#1 assert [C06] len(buf) <= r.$avail
-//@ modifies heap
+//@ modifies heap, ghostall(io.ByteReader.$pos)
 //@ preserves all(FixHeader.*), all(Pubrec.Version), all(Pubrec.FixHeader)
 //@ ensures [C06] result == nil ==> p.FixHeader.RemainLength >= 2 && p.PacketID == (uint16(bufr.$data[0]) << 8 | uint16(bufr.$data[1])) && bufr.$w == p.FixHeader.RemainLength && bufr.$r <= bufr.$w
 //@ ensures [C06] result == nil && p.FixHeader.RemainLength == 2 ==> p.Code == 0
@@ -258,7 +351,7 @@ package packets
 //@ requires [C06] p != nil && p.FixHeader != nil && p.FixHeader.RemainLength >= 0
 //@ requires [C06] p.FixHeader.RemainLength <= r.$avail
 //@ call ReadFull#1 assert [C06] len(buf) <= r.$avail
-//@ modifies heap
+//@ modifies heap, ghostall(io.ByteReader.$pos)
 //@ preserves all(FixHeader.*), all(Pubcomp.Version), all(Pubcomp.FixHeader)
 //@ ensures [C06] result == nil ==> p.FixHeader.RemainLength >= 2 && p.PacketID == (uint16(bufr.$data[0]) << 8 | uint16(bufr.$data[1])) && bufr.$w == p.FixHeader.RemainLength && bufr.$r <= bufr.$w
 //@ ensures [C06] result == nil && p.FixHeader.RemainLength == 2 ==> p.Code == 0
@@ -270,7 +363,7 @@ package packets
 //@ requires [C06] p != nil && p.FixHeader != nil && p.FixHeader.RemainLength >= 0
 //@ requires [C06] p.FixHeader.RemainLength <= r.$avail
 //@ call ReadFull#1 assert [C06] len(buf) <= r.$avail
-//@ modifies heap
+//@ modifies heap, ghostall(io.ByteReader.$pos)
 //@ preserves all(FixHeader.*), all(Pubrel.FixHeader)
 //@ ensures [C06] result == nil ==> p.FixHeader.RemainLength >= 2 && p.PacketID == (uint16(bufr.$data[0]) << 8 | uint16(bufr.$data[1])) && bufr.$w == p.FixHeader.RemainLength && bufr.$r <= bufr.$w
 //@ ensures [C06] result == nil && p.FixHeader.RemainLength == 2 ==> p.Code == 0
@@ -355,7 +448,7 @@ package packets
 //@ props C06
 //@ requires [C06] fh != nil && fh.RemainLength >= 0
 //@ requires [C06] fh.RemainLength <= r.$avail
-//@ modifies heap
+//@ modifies heap, ghostall(io.ByteReader.$pos)
 //@ preserves all(FixHeader.*)
 //@ ensures [C06] result1 == nil ==> result0 != nil && result0.FixHeader == fh && result0.Version == version && result0.Qos <= 2 && !(result0.Qos == 0 && result0.Dup)
 //@ ensures [C06] result1 == nil ==> result0.Dup == ((1 & (fh.Flags >> 3)) > 0) && result0.Qos == ((fh.Flags >> 1) & 3) && result0.Retain == ((fh.Flags & 1) == 1)
@@ -369,7 +462,7 @@ package packets
 //@ requires [C06] p != nil && p.FixHeader != nil && p.FixHeader.RemainLength >= 0
 //@ requires [C06] p.FixHeader.RemainLength <= r.$avail
 //@ call ReadFull#1 assert [C06] len(buf) <= r.$avail
-//@ modifies heap
+//@ modifies heap, ghostall(io.ByteReader.$pos)
 //@ preserves all(FixHeader.*), all(Publish.Version), all(Publish.Qos), all(Publish.Dup), all(Publish.Retain), all(Publish.FixHeader)
 //@ ensures [C06] result == nil ==> bufr.$w == p.FixHeader.RemainLength && bufr.$r == bufr.$w && len(p.TopicName) == int(uint16(bufr.$data[0]) << 8 | uint16(bufr.$data[1])) && 2 + len(p.TopicName) <= p.FixHeader.RemainLength
 //@ ensures [C06] result == nil ==> (forall k int :: 0 <= k && k < len(p.TopicName) ==> p.TopicName[k] == bufr.$data[2 + k])
@@ -416,7 +509,7 @@ package packets
 //@ requires [C06] u != nil && u.FixHeader != nil && u.FixHeader.RemainLength >= 0
 //@ requires [C06] u.FixHeader.RemainLength <= r.$avail
 //@ call ReadFull#1 assert [C06] len(buf) <= r.$avail
-//@ modifies heap
+//@ modifies heap, ghostall(io.ByteReader.$pos)
 //@ preserves all(FixHeader.*), all(Unsubscribe.Version), all(Unsubscribe.FixHeader)
 //@ loop 1 invariant bufOK(bufr) && bufr.$w == u.FixHeader.RemainLength && u.FixHeader.RemainLength >= 2 && u.PacketID == (uint16(bufr.$data[0]) << 8 | uint16(bufr.$data[1]))
 //@ ensures [C06] result == nil ==> u.FixHeader.RemainLength >= 2 && u.PacketID == (uint16(bufr.$data[0]) << 8 | uint16(bufr.$data[1])) && bufr.$w == u.FixHeader.RemainLength && bufr.$r == bufr.$w
@@ -427,7 +520,7 @@ package packets
 //@ props C06
 //@ requires [C06] fh != nil && fh.RemainLength >= 0
 //@ requires [C06] fh.RemainLength <= r.$avail
-//@ modifies heap
+//@ modifies heap, ghostall(io.ByteReader.$pos)
 //@ preserves all(FixHeader.*)
 //@ ensures [C06] result1 == nil ==> result0 != nil && fh.Flags == 2 && result0.FixHeader == fh && result0.Version == version && len(result0.Topics) >= 1
 //@ ensures [C06] fh.Flags != 2 ==> result1 != nil
@@ -450,7 +543,7 @@ package packets
 //@ requires [C06] p != nil && p.FixHeader != nil && p.FixHeader.RemainLength >= 0
 //@ requires [C06] p.FixHeader.RemainLength <= r.$avail
 //@ call ReadFull#1 assert [C06] len(buf) <= r.$avail
-//@ modifies heap
+//@ modifies heap, ghostall(io.ByteReader.$pos)
 //@ preserves all(FixHeader.*), all(Suback.Version), all(Suback.FixHeader)
 //@ loop 1 invariant bufOK(bufr) && bufr.$w == p.FixHeader.RemainLength && p.FixHeader.RemainLength >= 2 && bufr.$r >= 2 && p.PacketID == (uint16(bufr.$data[0]) << 8 | uint16(bufr.$data[1]))
 //@ ensures [C06] result == nil ==> p.PacketID == (uint16(bufr.$data[0]) << 8 | uint16(bufr.$data[1])) && bufr.$w == p.FixHeader.RemainLength && bufr.$r == bufr.$w
@@ -461,7 +554,7 @@ package packets
 //@ props C06
 //@ requires [C06] fh != nil && fh.RemainLength >= 0
 //@ requires [C06] fh.RemainLength <= r.$avail
-//@ modifies heap
+//@ modifies heap, ghostall(io.ByteReader.$pos)
 //@ preserves all(FixHeader.*)
 //@ ensures [C06] result1 == nil ==> result0 != nil && fh.Flags == 0 && result0.FixHeader == fh && result0.Version == version && len(result0.Payload) >= 1
 //@ ensures [C06] fh.Flags != 0 ==> result1 != nil
@@ -481,7 +574,7 @@ package packets
 //@ requires [C06] p != nil && p.FixHeader != nil && p.FixHeader.RemainLength >= 0
 //@ requires [C06] p.FixHeader.RemainLength <= r.$avail
 //@ call ReadFull#1 assert [C06] len(buf) <= r.$avail
-//@ modifies heap
+//@ modifies heap, ghostall(io.ByteReader.$pos)
 //@ preserves all(FixHeader.*), all(Unsuback.Version), all(Unsuback.FixHeader)
 //@ loop 1 invariant bufOK(bufr) && bufr.$w == p.FixHeader.RemainLength && p.FixHeader.RemainLength >= 2 && bufr.$r >= 2 && p.PacketID == (uint16(bufr.$data[0]) << 8 | uint16(bufr.$data[1]))
 //@ ensures [C06] result == nil ==> p.FixHeader.RemainLength >= 2 && p.PacketID == (uint16(bufr.$data[0]) << 8 | uint16(bufr.$data[1])) && bufr.$w == p.FixHeader.RemainLength
@@ -492,7 +585,7 @@ package packets
 //@ props C06
 //@ requires [C06] fh != nil && fh.RemainLength >= 0
 //@ requires [C06] fh.RemainLength <= r.$avail
-//@ modifies heap
+//@ modifies heap, ghostall(io.ByteReader.$pos)
 //@ preserves all(FixHeader.*)
 //@ ensures [C06] result1 == nil ==> result0 != nil && fh.Flags == 0 && result0.FixHeader == fh && result0.Version == version
 //@ ensures [C06] fh.Flags != 0 ==> result1 != nil
@@ -514,7 +607,7 @@ package packets
 //@ requires [C06] c != nil && c.FixHeader != nil && c.FixHeader.RemainLength >= 0
 //@ requires [C06] c.FixHeader.RemainLength <= r.$avail
 //@ call ReadFull#1 assert [C06] len(buf) <= r.$avail
-//@ modifies heap
+//@ modifies heap, ghostall(io.ByteReader.$pos)
 //@ preserves all(FixHeader.*), all(Connack.Version), all(Connack.FixHeader)
 //@ ensures [C06] result == nil ==> c.FixHeader.RemainLength >= 2 && bufr.$w == c.FixHeader.RemainLength && (bufr.$data[0] == 0 || bufr.$data[0] == 1) && c.SessionPresent == (bufr.$data[0] == 1) && c.Code == bufr.$data[1]
 //@ ensures [C06] result == nil && c.Version != 5 ==> bufr.$r == 2
@@ -523,7 +616,7 @@ package packets
 //@ props C06
 //@ requires [C06] fh != nil && fh.RemainLength >= 0
 //@ requires [C06] fh.RemainLength <= r.$avail
-//@ modifies heap
+//@ modifies heap, ghostall(io.ByteReader.$pos)
 //@ preserves all(FixHeader.*)
 //@ ensures [C06] result1 == nil ==> result0 != nil && fh.Flags == 0 && result0.FixHeader == fh && result0.Version == version
 //@ ensures [C06] fh.Flags != 0 ==> result1 != nil
@@ -547,7 +640,7 @@ package packets
 //@ requires [C06] d != nil && d.FixHeader != nil && d.FixHeader.RemainLength >= 0
 //@ requires [C06] d.FixHeader.RemainLength <= r.$avail
 //@ call ReadFull#1 assert [C06] len(buf) <= r.$avail
-//@ modifies heap
+//@ modifies heap, ghostall(io.ByteReader.$pos)
 //@ preserves all(FixHeader.*), all(Disconnect.Version), all(Disconnect.FixHeader)
 //@ ensures [C06] result == nil && d.Version == 5 ==> d.Properties != nil && (d.FixHeader.RemainLength == 0 ==> d.Code == 0)
 //@ ensures [C06] result == nil && d.Version == 5 && d.FixHeader.RemainLength > 0 ==> d.Code == bufr.$data[0] && bufr.$w == d.FixHeader.RemainLength
@@ -556,7 +649,7 @@ package packets
 //@ props C06
 //@ requires [C06] fh != nil && fh.RemainLength >= 0
 //@ requires [C06] fh.RemainLength <= r.$avail
-//@ modifies heap
+//@ modifies heap, ghostall(io.ByteReader.$pos)
 //@ preserves all(FixHeader.*)
 //@ ensures [C06] result1 == nil ==> result0 != nil && fh.Flags == 0 && result0.FixHeader == fh && result0.Version == version && (version == 5 ==> result0.Properties != nil)
 //@ ensures [C06] fh.Flags != 0 ==> result1 != nil
@@ -576,7 +669,7 @@ package packets
 //@ requires [C06] a != nil && a.FixHeader != nil && a.FixHeader.RemainLength >= 0
 //@ requires [C06] a.FixHeader.RemainLength <= r.$avail
 //@ call ReadFull#1 assert [C06] len(buf) <= r.$avail
-//@ modifies heap
+//@ modifies heap, ghostall(io.ByteReader.$pos)
 //@ preserves all(FixHeader.*), all(Auth.FixHeader)
 //@ ensures [C06] result == nil && a.FixHeader.RemainLength == 0 ==> a.Code == 0
 //@ ensures [C06] result == nil && a.FixHeader.RemainLength > 0 ==> a.Properties != nil && a.Code == bufr.$data[0] && bufr.$w == a.FixHeader.RemainLength
@@ -585,7 +678,7 @@ package packets
 //@ props C06
 //@ requires [C06] fh != nil && fh.RemainLength >= 0
 //@ requires [C06] fh.RemainLength <= r.$avail
-//@ modifies heap
+//@ modifies heap, ghostall(io.ByteReader.$pos)
 //@ preserves all(FixHeader.*)
 //@ ensures [C06] result1 == nil ==> result0 != nil && fh.Flags == 0 && result0.FixHeader == fh
 //@ ensures [C06] fh.Flags != 0 ==> result1 != nil
@@ -643,7 +736,7 @@ package packets
 //@ requires [C06] c != nil && c.FixHeader != nil && c.FixHeader.RemainLength >= 0
 //@ requires [C06] c.FixHeader.RemainLength <= r.$avail
 //@ call ReadFull#1 assert [C06] len(buf) <= r.$avail
-//@ modifies heap
+//@ modifies heap, ghostall(io.ByteReader.$pos)
 //@ preserves all(FixHeader.*), all(Connect.FixHeader)
 //@ abstract call bytes.Equal pure
 //@ call readUint16#1 assert [C06] (connectFlags & 1) == 0 && connectFlags == bufr.$data[bufr.$r - 1] && c.CleanStart == ((1 & (connectFlags >> 1)) > 0) && c.WillFlag == ((1 & (connectFlags >> 2)) > 0) && c.WillQos == (3 & (connectFlags >> 3)) && c.WillRetain == ((1 & (connectFlags >> 5)) > 0) && c.PasswordFlag == ((1 & (connectFlags >> 6)) > 0) && c.UsernameFlag == ((1 & (connectFlags >> 7)) > 0)
@@ -663,7 +756,7 @@ package packets
 //@ func (*Connect).unpackPayload mode bv
 //@ props C06
 //@ requires [C06] c != nil && bufOK(bufr) && (c.Version == 5 && c.WillFlag ==> c.WillProperties != nil)
-//@ modifies heap, ghost(bufr.$r)
+//@ modifies heap, ghost(bufr.$r), ghostall(io.ByteReader.$pos)
 //@ preserves all(FixHeader.*), all(Connect.FixHeader), all(Connect.Version), all(Connect.ProtocolLevel), all(Connect.CleanStart), all(Connect.WillFlag), all(Connect.WillQos), all(Connect.WillRetain), all(Connect.UsernameFlag), all(Connect.PasswordFlag), all(Connect.Properties), all(Connect.WillProperties), all(Connect.KeepAlive)
 //@ ensures [C06] bufOK(bufr) && bufr.$r >= old(bufr.$r) && bufr.$w == old(bufr.$w)
 //@ ensures [C06] result == nil ==> len(c.ClientID) == int(uint16(bufr.$data[old(bufr.$r)]) << 8 | uint16(bufr.$data[old(bufr.$r) + 1])) && (forall k int :: 0 <= k && k < len(c.ClientID) ==> c.ClientID[k] == bufr.$data[old(bufr.$r) + 2 + k])
@@ -675,7 +768,7 @@ package packets
 //@ props C06
 //@ requires [C06] fh != nil && fh.RemainLength >= 0
 //@ requires [C06] fh.RemainLength <= r.$avail
-//@ modifies heap
+//@ modifies heap, ghostall(io.ByteReader.$pos)
 //@ preserves all(FixHeader.*)
 //@ ensures [C06] result1 == nil ==> result0 != nil && fh.Flags == 0 && result0.FixHeader == fh && result0.Version == result0.ProtocolLevel
 //@ ensures [C06] fh.Flags != 0 ==> result1 != nil
@@ -708,7 +801,7 @@ package packets
 //@ props C06
 //@ requires [C06] fh != nil && fh.RemainLength >= 0
 //@ requires [C06] fh.RemainLength <= r.$avail
-//@ modifies heap
+//@ modifies heap, ghostall(io.ByteReader.$pos)
 //@ preserves all(FixHeader.*)
 //@ ensures [C06] result1 == nil ==> result0 != nil && result0.FixHeader == fh && result0.Version == version && fh.RemainLength >= 2
 //@ ensures [C06] (result0 == nil) == (result1 != nil)
@@ -716,7 +809,7 @@ package packets
 //@ props C06
 //@ requires [C06] fh != nil && fh.RemainLength >= 0
 //@ requires [C06] fh.RemainLength <= r.$avail
-//@ modifies heap
+//@ modifies heap, ghostall(io.ByteReader.$pos)
 //@ preserves all(FixHeader.*)
 //@ ensures [C06] result1 == nil ==> result0 != nil && result0.FixHeader == fh && result0.Version == version && fh.RemainLength >= 2
 //@ ensures [C06] (result0 == nil) == (result1 != nil)
@@ -724,7 +817,7 @@ package packets
 //@ props C06
 //@ requires [C06] fh != nil && fh.RemainLength >= 0
 //@ requires [C06] fh.RemainLength <= r.$avail
-//@ modifies heap
+//@ modifies heap, ghostall(io.ByteReader.$pos)
 //@ preserves all(FixHeader.*)
 //@ ensures [C06] result1 == nil ==> result0 != nil && result0.FixHeader == fh && result0.Version == version && fh.RemainLength >= 2
 //@ ensures [C06] (result0 == nil) == (result1 != nil)
@@ -732,7 +825,7 @@ package packets
 //@ props C06
 //@ requires [C06] fh != nil && fh.RemainLength >= 0
 //@ requires [C06] fh.RemainLength <= r.$avail
-//@ modifies heap
+//@ modifies heap, ghostall(io.ByteReader.$pos)
 //@ preserves all(FixHeader.*)
 //@ ensures [C06] result1 == nil ==> result0 != nil && result0.FixHeader == fh && fh.RemainLength >= 2
 //@ ensures [C06] (result0 == nil) == (result1 != nil)
@@ -740,7 +833,7 @@ package packets
 //@ props C06
 //@ requires [C06] fh != nil && fh.RemainLength >= 0
 //@ requires [C06] fh.RemainLength <= r.$avail
-//@ modifies heap
+//@ modifies heap, ghostall(io.ByteReader.$pos)
 //@ preserves all(FixHeader.*)
 //@ ensures [C06] result1 == nil ==> result0 != nil && fh.Flags == 2 && result0.FixHeader == fh && result0.Version == version
 //@ ensures [C06] fh.Flags != 2 ==> result1 != nil
@@ -752,7 +845,7 @@ package packets
 //@ props C06
 //@ requires [C06] fh != nil && fh.RemainLength >= 0
 //@ requires [C06] fh.RemainLength <= r.$avail
-//@ modifies heap
+//@ modifies heap, ghostall(io.ByteReader.$pos)
 //@ preserves all(FixHeader.*)
 //@ ensures [C06] fh.PacketType == 0 || fh.PacketType > 15 ==> result1 != nil
 //@ ensures [C06] result1 == nil ==> result0 != nil && (result0.(type *Connect) ==> result0.(*Connect) != nil)
